@@ -55,6 +55,27 @@ type GroupedPoints struct {
 	// KeyMaxFloat float64
 }
 
+// updateKeyIndex updates KeyNotIndex and KeyMaxInt for a Point
+// that is about to be added to the group
+func (g *GroupedPoints) updateKeyIndex(p Point) {
+	// Note: an empty Key is treated like "0"
+	index := 0
+	if p.Key != "" {
+		var err error
+		index, err = strconv.Atoi(p.Key)
+		if err != nil || index < 0 {
+			g.KeyNotIndex = p.Key
+			return
+		}
+	}
+	// Note: Do not set `KeyMaxInt` if Tombstone is set. We don't
+	// need to expand the slice in this case. This must be the same
+	// test SetValue uses to decide whether a point is deleted.
+	if index > g.KeyMaxInt && p.Tombstone%2 != 1 {
+		g.KeyMaxInt = index
+	}
+}
+
 // SetValue populates v with the Points in the group
 func (g GroupedPoints) SetValue(v reflect.Value) error {
 	t := v.Type()
@@ -319,17 +340,7 @@ func Decode(input NodeEdgeChildren, outputStruct any) error {
 		if !ok {
 			g.KeyMaxInt = -1
 		}
-		if p.Key != "" {
-			index, err := strconv.Atoi(p.Key)
-			if err != nil || index < 0 {
-				g.KeyNotIndex = p.Key
-			} else if index > g.KeyMaxInt && p.Tombstone%2 == 0 {
-				// Note: Do not set `KeyMaxInt` if Tombstone is set. We don't
-				// need to expand the slice in this case.
-				g.KeyMaxInt = index
-			}
-		}
-		// else p.Key is treated like "0"; no need to update `g` at all
+		g.updateKeyIndex(p)
 		g.Points = append(g.Points, p)
 		pointGroups[p.Type] = g
 	}
@@ -338,14 +349,7 @@ func Decode(input NodeEdgeChildren, outputStruct any) error {
 		if !ok {
 			g.KeyMaxInt = -1
 		}
-		if p.Key != "" {
-			index, err := strconv.Atoi(p.Key)
-			if err != nil || index < 0 {
-				g.KeyNotIndex = p.Key
-			} else if index > g.KeyMaxInt && p.Tombstone%2 == 0 {
-				g.KeyMaxInt = index
-			}
-		}
+		g.updateKeyIndex(p)
 		g.Points = append(g.Points, p)
 		edgePointGroups[p.Type] = g
 	}
